@@ -3,6 +3,7 @@ CONSTANTS
   Need <- NeedDef
   NProcs = {1, 2, 3}
   SharedPerChunk = TRUE
+  AnyChunking = FALSE
   OptSets <- OptsDefault
   SwapOptions = FALSE
   Export = TRUE
